@@ -57,6 +57,25 @@ class InfoLearner:
         self.learns += 1
         CobaContext.learning_info['n_learns'] = self.learns
 
+class CtxLearner:
+    """stateless user learner whose pick depends on the context values (so that context-changing filters show in the rows)"""
+    @property
+    def params(self): return {'family':'ctx_double'}
+    def predict(self, context, actions):
+        k = int(abs(sum(float(x) for x in context))*1000) % len(actions)
+        return actions[k], 1/len(actions)
+    def learn(self, context, action, reward, probability): pass
+
+class EmptyTagEval:
+    """custom evaluator that yields NO rows for learners tagged 'empty' and two rows for everybody else"""
+    @property
+    def params(self): return {'eval':'empty_for_tag'}
+    def evaluate(self, environment, learner):
+        if getattr(learner, 'tag', None) == 'empty': return
+        n = sum(1 for _ in environment.read())
+        yield {'n': n, 'who': str(learner.params.get('family'))}
+        yield {'n': n+1}
+
 class CountingEval:
     """custom evaluator: yields what it saw; exposes whether the learner arrived pristine"""
     def __init__(self, tag='c'): self.tag = tag
@@ -118,12 +137,18 @@ def prog_info_mix():
 def prog_rejection_seeded():
     envs = Environments(ListEnv('rs', n=8)).logged(RandomLearner(seed=2))
     return (envs, [BanditEpsilonLearner(.1, seed=1), RandomLearner(seed=3), InfoLearner('r')], [RejectionCB(seed=3)]), {}
+def prog_empty_eval():
+    envs = Environments(ListEnv('ee'), ListEnv('fff', n=3)).chunk()
+    return (envs, [KwargsLearner('empty'), BanditEpsilonLearner(.1, seed=1), RandomLearner(seed=2)], [EmptyTagEval()]), {}
+def prog_scaled_shuffle():
+    envs = synth(1, n=8).shuffle(n=3).scale('mean','std',using=3)
+    return (envs, [CtxLearner()], [SequentialCB(record=['reward','context'])]), {}
 def prog_single():
     return (Environments(ListEnv('s')), RandomLearner(), SequentialCB()), {}
 
 PROGRAMS = {'cross':prog_cross, 'chunk_shuffle':prog_chunk_shuffle, 'cache_take':prog_cache_take, 'tuples_shared':prog_tuples_shared,
             'logged_rejection':prog_logged_rejection, 'custom_chunked':prog_custom_chunked, 'one_env_two_evals':prog_one_env_two_evals, 'logged_shuffle':prog_logged_shuffle, 'single':prog_single,
-            'info_mix':prog_info_mix, 'rejection_seeded':prog_rejection_seeded}
+            'info_mix':prog_info_mix, 'rejection_seeded':prog_rejection_seeded, 'empty_eval':prog_empty_eval, 'scaled_shuffle':prog_scaled_shuffle}
 
 # ---------------------------------------------------------------------------------------------------
 def reset_context():
